@@ -3,6 +3,7 @@ import Ledger.Sql.Decode
 import Ledger.Generated.Schema
 import Ledger.Driver.Core
 import Ledger.Driver.HistH
+import Ledger.Sql.StoreOpsH
 
 /-!
 `ldriver_sql` (= `lpg`): LeanPG, the modelled PostgreSQL, as a JSON line server
@@ -99,7 +100,9 @@ def handle (w : World) (j : Json) : World × Json :=
 def sqlHandlers : List (String × Ledger.Driver.Handler) :=
   -- `hist` / `histself`: history + ledger snapshot vs. the Spec (Ledger/Spec/README.md); used by the
   -- `sqlhist` workload, whose snapshots come from the real store running on this very LeanPG
-  Ledger.Driver.histHandlers
+  Ledger.Driver.histHandlers ++
+  -- `storeops`: every step's table dump of the `storeops` workload against the Spec (through `hist`)
+  Ledger.Sql.StoreOps.handlers
 
 def verdictLine (j : Json) (i : Nat) : Json :=
   let res : Except String Ledger.Driver.Verdict := do
